@@ -133,7 +133,7 @@ def _hist(prop, units, technique, nt_rule, extra_assume=None, floor_q=5, floor_t
 _hist("C01", [{"name": "ta-exclusive", "pkg": RESMGR, "run": "^TestVerifC01$", "replay_run": "^TestVerifC01Replay$", "q": 250, "t": 48000, "per_proc": 500}],
       "rapid stateful request histories on a real topology-aware resource manager; oracle = set-algebra invariants over all live containers after every request (white-box grants + runtime model of told cpusets + advertised zones + configuration)",
       "non-trivial = at least two containers held exclusive CPUs at the same time and a stop/update/re-create/reconfigure/synchronize followed")
-_hist("C03", [{"name": "ta-capacity", "pkg": RESMGR, "run": "^TestVerifC03$", "replay_run": "^TestVerifC03Replay$", "q": 400, "t": 48000, "per_proc": 500}],
+_hist("C03", [{"name": "ta-capacity", "pkg": RESMGR, "run": "^TestVerifC03$", "replay_run": "^TestVerifC03Replay$", "q": 700, "t": 48000, "per_proc": 500}],
       "rapid stateful histories steered to fill pools; oracle = capacity ledger invariants per pool subtree + reference implementation of the documented eligibility table + kubelet shares formula",
       "non-trivial = some pool hosting a shared container had < 1 CPU of shared capacity left in its subtree, or an exclusive grant sat at an inner pool whose children host shared containers")
 _hist("C04", [{"name": "ta-memory", "pkg": RESMGR, "run": "^TestVerifC04TA$", "replay_run": "^TestVerifC04TAReplay$", "q": 200, "t": 40000, "per_proc": 500}],
